@@ -38,8 +38,8 @@ def dec_item(x):
 
 
 def text(case):
-    """case: the text after the DATA keyword (a str)"""
-    t = case
+    """case: the text after the DATA keyword (a str), or [text, with_line_rule]"""
+    t, with_line = (case if isinstance(case, list) else (case, True))
     out = {'pd': enc_items(real_parse_data(t))}
     src = 'DATA ' + t
     # the rule data_stmt: items and how far it consumed
@@ -56,6 +56,8 @@ def text(case):
     except QSyntaxError as e:
         out['ds'] = ['syntax']
     # the whole line
+    if not with_line:
+        return out
     try:
         r = grammar.line.parse_string(src, parse_all=True)
         nodes = r[0].nodes
